@@ -92,11 +92,28 @@ class Out:
 
 
 class Extractor:
-    def __init__(self, repo, template):
+    def __init__(self, repo, template, defines=()):
         self.repo = repo
-        self.tmpl = self.expand_defs(open(template).read().split("\n"))
+        self.tmpl = self.expand_defs(self.select(open(template).read().split("\n"), set(defines)))
         self.out = Out()
         self.report = {"functions": [], "items": [], "rules": {}, "template": template}
+
+    @staticmethod
+    def select(lines, defines):
+        """//@if NAME .. [//@else ..] //@endif : keep a template section only for units that define NAME
+        (one template serves the main unit and the leaf unit)."""
+        out, stack = [], []
+        for l in lines:
+            s = l.strip()
+            if s.startswith("//@if "):
+                stack.append(s.split()[1] in defines)
+            elif s.startswith("//@else"):
+                stack[-1] = not stack[-1]
+            elif s.startswith("//@endif"):
+                stack.pop()
+            elif all(stack):
+                out.append(l)
+        return out
 
     @staticmethod
     def expand_defs(lines):
@@ -310,6 +327,12 @@ class Extractor:
         return (first, src.line_of(bc), p, j, bc)
 
     def emit_fn(self, src, f, span, copts):
+        g0 = len(self.out.lines) + 1
+        nrec = len(self.report["functions"])
+        self._emit_fn(src, f, span, copts)
+        self.report["functions"][nrec]["gen_lines"] = [g0, len(self.out.lines)]
+
+    def _emit_fn(self, src, f, span, copts):
         first, last, p_fn, p_open, p_close = span
         fo = f["opts"]
         name = f["name"]
